@@ -415,7 +415,7 @@ func runBytes(r *harness.Run, trace func(string)) {
 			}
 		}
 		for _, b := range bases {
-			subs := []sub{{j.field, string(refQuote(j.val))}}
+			subs := []sub{{Path: j.field, Val: string(refQuote(j.val))}}
 			js := text(j.env.version, b, subs, false)
 			r.Eval()
 			rp := &reporter{r: r, in: func() caseInput {
